@@ -13,30 +13,30 @@ open Ramses.Eng
     operation itself succeeded** -/
 theorem guarded_preserves (e : Eng) (raises : Bool) (h : Running e)
     (hro : e.disableSending = true → e.writePaused = true) : (guarded raises e).1 = e := by
-  obtain ⟨h1, h2, h3, h4⟩ := h
+  obtain ⟨h1, h2, h3, h4, h5⟩ := h
   cases e with
-  | mk saved handler ds dd rd wp =>
-    simp only at h1 h2 h3 h4 hro
-    subst h1 h2 h3
+  | mk saved handler ds dd rd wp lk =>
+    simp only at h1 h2 h3 h4 h5 hro
+    subst h1 h2 h3 h5
     cases ds <;> simp_all [guarded, pause, resume]
 
 /-- a listen-only engine (sending disabled) is preserved too, except that its (unused) write side
     is left paused -/
 theorem guarded_preserves_readonly (e : Eng) (raises : Bool) (h : Running e) :
     (guarded raises e).1 = { e with writePaused := if e.disableSending then true else e.writePaused } := by
-  obtain ⟨h1, h2, h3, h4⟩ := h
+  obtain ⟨h1, h2, h3, h4, h5⟩ := h
   cases e with
-  | mk saved handler ds dd rd wp =>
-    simp only at h1 h2 h3 h4
-    subst h1 h2 h3
+  | mk saved handler ds dd rd wp lk =>
+    simp only at h1 h2 h3 h4 h5
+    subst h1 h2 h3 h5
     cases ds <;> simp_all [guarded, pause, resume]
 
 theorem guarded_result (e : Eng) (raises : Bool) (h : Running e) :
     (guarded raises e).2 = if raises then .raised else .ok := by
-  obtain ⟨h1, _, _, _⟩ := h
+  obtain ⟨h1, _, _, _, h5⟩ := h
   cases e with
-  | mk saved handler ds dd rd wp =>
-    simp only at h1; subst h1
+  | mk saved handler ds dd rd wp lk =>
+    simp only at h1 h5; subst h1 h5
     simp [guarded, pause, resume]
 
 /-- any sequence of snapshot / restore operations, each failing or not, leaves a running engine
@@ -54,17 +54,51 @@ theorem any_sequence_preserves (bs : List Bool) : ∀ (e : Eng), Running e →
 /-- an operation attempted while the engine is already paused is refused and changes nothing -/
 theorem nested_refused (e : Eng) (raises : Bool) (s : Saved) (h : e.saved = some s) :
     guarded raises e = (e, .runtimeError) := by
-  simp [guarded, pause, h]
+  unfold guarded pause
+  split <;> simp_all
+
+/-- **snapshot / restore attempts made while another one is in progress** (any number, failing or
+    not) are each refused, change nothing, and the operation in progress still ends with the engine
+    exactly as before -/
+theorem nested_attempts_harmless (e : Eng) (raises : Bool) (nested : List Bool) (h : Running e)
+    (hro : e.disableSending = true → e.writePaused = true) :
+    (guardedWithNested raises nested e).1 = e ∧
+    (guardedWithNested raises nested e).2.2 = nested.map (fun _ => Res.runtimeError) := by
+  obtain ⟨h1, h2, h3, h4, h5⟩ := h
+  cases e with
+  | mk saved handler ds dd rd wp lk =>
+    simp only at h1 h2 h3 h4 h5 hro
+    subst h1 h2 h3 h5
+    -- after the pause the engine is paused and unlocked; every nested attempt leaves it so
+    have key : ∀ (ns : List Bool) (acc : List Res) (p : Eng), (∃ s, p.saved = some s) →
+        ns.foldl (fun (acc : Eng × List Res) b => ((guarded b acc.1).1, acc.2 ++ [(guarded b acc.1).2])) (p, acc)
+          = (p, acc ++ ns.map (fun _ => Res.runtimeError)) := by
+      intro ns
+      induction ns with
+      | nil => intro acc p _; simp
+      | cons b bs ih =>
+        intro acc p hp
+        obtain ⟨s, hs⟩ := hp
+        simp only [List.foldl_cons, nested_refused p b s hs]
+        rw [ih (acc ++ [Res.runtimeError]) p ⟨s, hs⟩]
+        simp
+    unfold guardedWithNested
+    simp only [pause, Bool.false_eq_true, if_false]
+    have := key nested [] ⟨some ⟨true, ds, dd⟩, false, true, true, false, true, false⟩ ⟨_, rfl⟩
+    simp only [List.nil_append] at this
+    rw [this]
+    cases ds <;> simp_all [resume]
+
 
 /-- why the `finally` matters: without it one failing snapshot leaves the handler removed, sending
     disabled and the engine marked paused — and every later snapshot is refused -/
-def e0 : Eng := ⟨none, true, false, false, true, false⟩
+def e0 : Eng := ⟨none, true, false, false, true, false, false⟩
 
 theorem unguarded_breaks :
     Running e0 ∧ (unguarded true e0).1.handler = false ∧ (unguarded true e0).1.disableSending = true ∧
       (unguarded false (unguarded true e0).1).2 = .runtimeError := by
   refine ⟨by simp [Running, e0], by decide, by decide, by decide⟩
 
-example : Running ⟨none, true, false, false, true, false⟩ := by simp [Running]
+example : Running ⟨none, true, false, false, true, false, false⟩ := by simp [Running]
 
 end Ramses.C13
